@@ -17,8 +17,8 @@ variable (P : Prog) (env : Nat → Nat)
 /-- `Via S a k`: a non-empty path from `a` to `k` all of whose intermediate nodes are outside
     `S` (the end points are unconstrained). -/
 inductive Via (S : List Nat) : Nat → Nat → Prop where
-  | step {a c : Nat} : c ∈ callees env (P.node a).body → Via S a c
-  | cons {a c k : Nat} : c ∈ callees env (P.node a).body → c ∉ S → Via S c k → Via S a k
+  | step {a c : Nat} : c ∈ callees env ρ0 (P.node a).body → Via S a c
+  | cons {a c k : Nat} : c ∈ callees env ρ0 (P.node a).body → c ∉ S → Via S c k → Via S a k
 
 variable {P env}
 
@@ -99,20 +99,20 @@ theorem Via.first_target {a b : Nat} (h : Via P env [] a b) : Via P env [b] a b 
 
 /-! ## completeness of the Boolean `reach` -/
 
-theorem callee_lt (hW : P.Wf) {a c : Nat} (hc : c ∈ callees env (P.node a).body) : c < P.n := by
+theorem callee_lt (hW : P.Wf) {a c : Nat} (hc : c ∈ callees env ρ0 (P.node a).body) : c < P.n := by
   by_cases ha : a < P.n
-  · exact wf_callees P env hW ha c hc
+  · exact wf_callees P env hW ρ0 ha c hc
   · rw [node_out P (Nat.le_of_not_lt ha)] at hc
     simp [callees] at hc
 
-theorem callee_src_lt {a c : Nat} (hc : c ∈ callees env (P.node a).body) : a < P.n := by
+theorem callee_src_lt {a c : Nat} (hc : c ∈ callees env ρ0 (P.node a).body) : a < P.n := by
   by_cases ha : a < P.n
   · exact ha
   · rw [node_out P (Nat.le_of_not_lt ha)] at hc
     simp [callees] at hc
 
-theorem reach_succ (k a b : Nat) (h : reach P env k a b = true) :
-    reach P env (k + 1) a b = true := by
+theorem reach_succ (k a b : Nat) (h : reach P env ρ0 k a b = true) :
+    reach P env ρ0 (k + 1) a b = true := by
   induction k generalizing a with
   | zero => simp [reach] at h
   | succ k ih =>
@@ -124,8 +124,8 @@ theorem reach_succ (k a b : Nat) (h : reach P env k a b = true) :
     · exact ⟨c, hc, Or.inl h⟩
     · exact ⟨c, hc, Or.inr (ih c h)⟩
 
-theorem reach_mono {k m : Nat} (hkm : k ≤ m) (a b : Nat) (h : reach P env k a b = true) :
-    reach P env m a b = true := by
+theorem reach_mono {k m : Nat} (hkm : k ≤ m) (a b : Nat) (h : reach P env ρ0 k a b = true) :
+    reach P env ρ0 m a b = true := by
   induction m with
   | zero =>
     have : k = 0 := by omega
@@ -138,7 +138,7 @@ theorem reach_mono {k m : Nat} (hkm : k ≤ m) (a b : Nat) (h : reach P env k a 
 /-- a path avoiding the duplicate-free set `X` is found with fuel `n - |X| + 1`. -/
 theorem via_reach_bound (hW : P.Wf) : ∀ (m : Nat) (X : List Nat) (a b : Nat), X.Nodup →
     (∀ x ∈ X, x < P.n) → P.n - X.length ≤ m → Via P env X a b →
-    reach P env (m + 1) a b = true := by
+    reach P env ρ0 (m + 1) a b = true := by
   intro m
   induction m with
   | zero =>
@@ -191,7 +191,7 @@ theorem Reach.target_lt (hW : P.Wf) {a b : Nat} (h : Reach P env a b) : b < P.n 
 
 /-- **completeness of `reach`**: in a well-formed program every path is found with fuel `n`. -/
 theorem reach_complete (hW : P.Wf) {a b : Nat} (h : Reach P env a b) :
-    reach P env P.n a b = true := by
+    reach P env ρ0 P.n a b = true := by
   have hb : b < P.n := h.target_lt hW
   have h1 : Via P env [b] a b := h.via_nil.first_target
   have h2 := via_reach_bound hW (P.n - 1) [b] a b (by simp)
@@ -200,7 +200,7 @@ theorem reach_complete (hW : P.Wf) {a b : Nat} (h : Reach P env a b) :
   have : P.n - 1 + 1 = P.n := by omega
   rw [this] at h2; exact h2
 
-theorem onCycle_iff (hW : P.Wf) (i : Nat) : onCycle P env i = true ↔ Reach P env i i :=
+theorem onCycle_iff (hW : P.Wf) (i : Nat) : onCycle P env ρ0 i = true ↔ Reach P env i i :=
   ⟨onCycle_sound P env i, fun h => reach_complete hW h⟩
 
 /-! ## chains of nodes that lie on no cycle -/
@@ -208,7 +208,7 @@ theorem onCycle_iff (hW : P.Wf) (i : Nat) : onCycle P env i = true ↔ Reach P e
 /-- `Deep k x`: a path of `k` edges starts at `x` whose first `k` nodes lie on no cycle. -/
 inductive Deep : Nat → Nat → Prop where
   | zero (x : Nat) : Deep 0 x
-  | succ {k x c : Nat} : ¬ Reach P env x x → c ∈ callees env (P.node x).body → Deep k c →
+  | succ {k x c : Nat} : ¬ Reach P env x x → c ∈ callees env ρ0 (P.node x).body → Deep k c →
       Deep (k + 1) x
 
 theorem Deep.bound_aux {k x : Nat} (h : Deep (P := P) (env := env) k x) :
